@@ -1,6 +1,6 @@
 (* C01 — Generated NumPy rhs computes exactly the derivatives the model text defines.
    Theorems only; every proof is [exact <lemma of the development>]. *)
-From GX Require Import Base Expr Topo KahnSound Ode OrderSound Target Sem Codegen Load Valid MirrorValid Run Carriers Examples.
+From GX Require Import Base Expr Topo KahnSound Ode OrderSound Target Sem Codegen Load Valid MirrorValid LoadWf Run Carriers Examples.
 Open Scope string_scope.
 Open Scope list_scope.
 
@@ -93,6 +93,24 @@ Theorem C01_mirror_monitor_is_correct_for_every_well_formed_model :
              exists v, nth_error out i = Some v /\ Sem N o ss inp false n v.
 Proof. exact @mirror_monitor_correct. Qed.
 Print Assumptions C01_mirror_monitor_is_correct_for_every_well_formed_model.
+
+(* text to code, end to end for the model: every item list the loader mirror accepts, none of whose names is
+   one the generated function uses for itself (t, time), compiles - with and without remove_unused - to an rhs
+   that runs and returns the documented meaning of every derivative in its state's slot *)
+Theorem C01_accepted_text_compiles_to_a_correct_rhs :
+  forall (T : Type) (N : NumOps T) items o ru order ss f (inp : inputs T),
+    load items = Ok o ->
+    (forall x, In x (all_names o) -> resv false x = false) ->
+    sorted_states o = Some ss ->
+    gen_rhs o ru order = Some f ->
+    sizes_ok o ss inp ->
+    exists out,
+      exec N f false inp = Some out
+      /\ length out = length ss
+      /\ forall i s, nth_error ss i = Some s ->
+           exists v, nth_error out i = Some v /\ Sem N o ss inp false (deriv_name_of s) v.
+Proof. exact @accepted_text_compiles_to_a_correct_rhs. Qed.
+Print Assumptions C01_accepted_text_compiles_to_a_correct_rhs.
 
 (* non-vacuity: the mirror's rhs for the example model (two components, unused intermediate,
    conditional, chain) is accepted, with and without removal of unused variables *)
